@@ -52,7 +52,8 @@ fn convergence_case(st: &mut Stats, rng: &mut Rng) {
     let inv = match cp_inverse_real(&d) { Some(i) => i, None => { st.count("skipped:certificate-failed"); return; } };
     let kf = frob(&d) * frob(&inv);
     let mk_rhs = |rng: &mut Rng| -> (Vec<f64>, Vec<f64>) {
-        let sc = *rng.pick(&[1.0, 1e8, 1e-8, 1e3]);
+        // right-hand sides of any scale: the planted solution (hence b) is scaled over 120 decades
+        let sc = *rng.pick(&[1.0, 1e8, 1e-8, 1e3, 1e-18, 1e-30, 1e-60, 1e30, 1e60]);
         let xs: Vec<f64> = (0..n).map(|_| rng.sym() * sc).collect();
         let b: Vec<f64> = (0..n).map(|i| (0..n).map(|j| d[i][j] * xs[j]).sum()).collect();
         (xs, b)
@@ -148,7 +149,7 @@ pub fn run(ctx: &Ctx) -> Report {
     let units = ctx.vol(8000, 200_000);
     let stats = par_run(ctx, TAG, units, |_u, rng, st| { for _ in 0..3 { convergence_case(st, rng); } degenerate_case(st, rng); degenerate_case(st, rng); });
     let mut rep = Report::new(stats,
-        "certified well-posed systems of order 1..60: symmetric strictly diagonally dominant with positive diagonal (SPD; all five variants) and strictly row-dominant nonsymmetric with mixed-sign diagonal (BiCG both error measures, BiCGSTAB, QMR), dominance margins {0.02,0.1,0.5,2}, global scales 1e+-3, rhs from a planted solution of scale 1, 1e3, 1e+-8, x0 zero/random/scaled, tol log-uniform 1e-12..1e-3 (QMR demanded for tol>=1e-8 only), budget 10n+100, shuffled triplets. Judged: Ok within the budget, finite x, agreement with Matrix::solve_basic within kappa_F*(tol+drift). Degenerate starts on integer data: exact initial guess (b=A*x0 exactly) and zero rhs with zero guess must be accepted (Ok), x finite and still a solution. Non-trivial: n>=2 and a judged Ok/degenerate outcome; distinct = distinct (solver,entries,tol) hashes");
+        "certified well-posed systems of order 1..60: symmetric strictly diagonally dominant with positive diagonal (SPD; all five variants) and strictly row-dominant nonsymmetric with mixed-sign diagonal (BiCG both error measures, BiCGSTAB, QMR), dominance margins {0.02,0.1,0.5,2}, global scales 1e+-3, rhs from a planted solution of scale 1, 1e3, 1e+-8, 1e-18, 1e+-30, 1e+-60, x0 zero/random/scaled, tol log-uniform 1e-12..1e-3 (QMR demanded for tol>=1e-8 only), budget 10n+100, shuffled triplets. Judged: Ok within the budget, finite x, agreement with Matrix::solve_basic within kappa_F*(tol+drift). Degenerate starts on integer data: exact initial guess (b=A*x0 exactly) and zero rhs with zero guess must be accepted (Ok), x finite and still a solution. Non-trivial: n>=2 and a judged Ok/degenerate outcome; distinct = distinct (solver,entries,tol) hashes");
     rep.assumptions = vec![
         "iteration cap 10n+100 (measured worst 3.4*(n+10) over 1.5 M solves)".into(),
         "a convergence failure is reported only if at least 2 of 3 fresh right-hand sides on the same matrix fail too (isolated Lanczos breakdowns are logged, not flagged)".into(),
